@@ -45,6 +45,7 @@ type Layout struct {
 	Trailing      bool // trailing blanks
 	QuoteAll      bool // quote every parameter that may be quoted
 	BlockAnn      bool // /* */ annotations
+	TightAnn      bool // no blanks between the annotation signs and the text: /*text*/, //text
 	ExplicitP     int  // probability (percent) that a directive with children gets an explicit context
 	URLExtrasLast bool // the URL-level Tags and Path directives stand after the methods
 	ExplicitAlt   int  // 1 / 2: among the siblings that have children the even / odd ones get an explicit context
@@ -64,6 +65,7 @@ func RandomLayout(r *rand.Rand) *Layout {
 	l.Trailing = r.Intn(3) == 0
 	l.QuoteAll = r.Intn(3) == 0
 	l.BlockAnn = r.Intn(3) == 0
+	l.TightAnn = r.Intn(4) == 0
 	l.ExplicitP = []int{0, 30, 100, 50}[r.Intn(4)]
 	l.Standalone = []int{0, 50, 100}[r.Intn(3)]
 	l.Gaps = r.Intn(3) == 0
@@ -508,6 +510,9 @@ func dirBlock(d *RDir, depth int, l *Layout) block {
 			pre = []string{" ", "  ", "\t", "   \t"}[l.R.Intn(4)]
 			in1 = []string{"", " ", "   ", "\t"}[l.R.Intn(4)]
 			in2 = []string{"", " ", "  ", "\t "}[l.R.Intn(4)]
+		}
+		if l.TightAnn {
+			in1, in2 = "", ""
 		}
 		if l.BlockAnn {
 			line += pre + "/*" + in1
